@@ -616,6 +616,36 @@ class Prop(object):
                         except Exception as e:
                             verdict = 'verify-error:' + type(e).__name__
                         self._judge(r, 'different', verdict, dict(tags, grp='message-content-bit'), dict(case), 'signed message (%s) with content bit %d.%d flipped' % (comp.name, i, bit))
+        # --- cleartext messages: RFC 4880 7.1 leaves exactly trailing space and tab (and the kind of line end) outside the signed text; every other
+        # character added to or removed from a line end - form feed, vertical tab, no-break space, Unicode separators ... - is a different text
+        from refpgp import armor as rarmor
+        for base_text in ('first line\nsecond line\nlast line', 'page one\x0c\npage two\u00a0\nend\x0b'):
+            cm = pgpy.PGPMessage.new(base_text, cleartext=True)
+            cm |= key.sign(cm, hash=HashAlgorithm.SHA256, created=K.dt(S.SIG_T))
+            c0 = pgpy.PGPMessage.from_blob(str(cm))
+            v = 'truthy' if pub.verify(c0) else 'falsy'
+            r.states += 1
+            r.transitions += 1
+            r.outcomes['base:' + v] += 1
+            if v != 'truthy':
+                r.viol('base-rejected', {'scn': 'cleartext'}, case, 'cleartext message does not verify after import')
+                continue
+            lines = base_text.split('\n')
+            muts = []
+            for li in range(len(lines)):
+                for ch in (' ', '\t', '\x0c', '\x0b', '\u00a0', '\x1c', '\x85', '\u2028', '\u3000', '\u200a'):
+                    muts.append(('append-%04x-line%d' % (ord(ch), li), lines[:li] + [lines[li] + ch] + lines[li + 1:], ch in ' \t'))
+                if lines[li] and lines[li][-1] in '\x0c\x0b\u00a0':
+                    muts.append(('remove-%04x-line%d' % (ord(lines[li][-1]), li), lines[:li] + [lines[li][:-1]] + lines[li + 1:], False))
+            for mname, mlines, free in muts:
+                mm = pgpy.PGPMessage.new('\n'.join(mlines), cleartext=True)
+                for sg in c0.signatures:
+                    mm |= sg
+                try:
+                    verdict = 'truthy' if pub.verify(pgpy.PGPMessage.from_blob(str(mm))) else 'falsy'
+                except Exception as e:
+                    verdict = 'verify-error:' + type(e).__name__
+                self._judge(r, 'free' if free else 'different', verdict, dict(tags, grp='cleartext-line-end'), dict(case), 'cleartext message with %s' % mname)
         # --- inside a key: swap parts between two certificates and re-import
         ka, _ = K.pgpy_cert(signer, uid='Carol One <c1@example.org>', subkeys=[('cv25519a', {KeyFlags.EncryptCommunications})])
         kb, _ = K.pgpy_cert('ed25519b' if signer != 'ed25519b' else 'ed25519a', uid='Dave Two <d2@example.org>', subkeys=[('cv25519b', {KeyFlags.EncryptCommunications})])
